@@ -195,8 +195,8 @@ mutual
 /-- Type shapes. -/
 inductive Ty where
   | leaf                                  -- pointer-free, `Collect`, `'static`
-  | gc                                    -- `Gc<'gc, _>`
-  | weak                                  -- `GcWeak<'gc, _>`
+  | gc                                    -- `Gc<'gc, _>`: any pointee, including `Self` / `RefLock<Self>`
+  | weak                                  -- `GcWeak<'gc, _>`: any pointee, including `Self`
   | opaque (isStatic : Bool)              -- no `Collect` impl
   | param (i : Nat)                       -- the i-th type parameter of the enclosing declaration
   | con (c : Con) (args : List Ty)        -- provided container applied to arguments
